@@ -798,6 +798,14 @@ class ResultsSuite(Suite):
             # ---- drain (not compared with the model; input of the end-state oracle)
             final = self._drain(sched, out, returned, finish_collect)
         finally:
+            # dead workers are unwound now (after the last observation).  If the unwinding itself raises
+            # something else than `Killed` (a `finally` of the code under test failing), the worker loop
+            # waits for another job: give it a second wake-up so that `close()` does not wait for it.
+            for w in sched.workers.values():
+                if w.state == "dead":
+                    w._closing = True
+                    w._go.release()
+                    w._go.release()
             sched.close()
             self.sched = None
         info["final"] = final
